@@ -145,7 +145,7 @@ def replay(rec):
     tol = kindl.REPLAY_TOL[sc["precision"]]
     rng = np.random.default_rng(2)
     q = np.array(rec["q"], float) if "q" in rec else rng.standard_normal((ny, nx))
-    bg = float(rec.get("bg", 0.3)) or 0.3
+    bg = float(rec.get("bg", 0.3))
     z, prof = kindl.profiles(sc["pid"], sc["n"], seed=sc.get("seed", 0))
     kw = dict(analytic=sc.get("analytic", False), zprof=(z, prof), srf_bg_conc=bg)
     if sc["fp"]:
